@@ -19,8 +19,8 @@ from mc.engine import ok, bad, skip
 PROPERTY = "C41"
 LEVEL = "exploration"
 TECHNIQUE = "bounded exhaustive enumeration of queuing programs (statement grammar), lockstep comparison with a list-of-lists model"
-LEVEL_TEXT = ("Every statement tree with <=3 statements over the full 18-atom/5-block grammar and <=4 (quick) / <=5 (thorough; "
-              "4 over the full grammar) statements over the core sub-grammar, nesting depth <=3, is executed against the real "
+LEVEL_TEXT = ("Every statement tree with <=4 statements over the full 18-atom/5-block grammar (thorough: also all trees with 5 "
+              "statements over a 10-atom sub-grammar and <=3 over 10 further constructor forms), nesting depth <=3, is executed against the real "
               "QueuingManager/AnnotatedQueue/QuantumTape; after every statement every context's queue is compared by object "
               "identity with a list-of-lists reference, and the context stack and locks are checked after every program, "
               "including those that raise.")
@@ -48,9 +48,8 @@ MEAS = ["ev", "pr"]
 APPLY = ["ap1", "apF", "apO"]
 ATOMS_FULL = CREATE + UNARY + BINARY + MEAS + APPLY + ["raise"]
 BLOCKS_FULL = ["AQ", "QT", "stop", "stopdec", "try"]
-# core sub-grammar for the deeper bound: one letter per mechanism
-ATOMS_CORE = ["X", "adj", "adjE", "matmul", "ev", "ap1", "apO", "raise"]
-BLOCKS_CORE = ["AQ", "QT", "stop", "try"]
+# sub-grammar for the deeper bound (thorough): one or two letters per mechanism
+ATOMS_MID = ["X", "adj", "adjE", "powE", "matmul", "ev", "pr", "ap1", "apO", "raise"]
 # thorough extras (size <= 3): further eager forms
 ATOMS_EXTRA = ["powH", "sub", "neg", "prod1", "sprodL", "sumL", "RX", "I", "mid", "evO"]
 
@@ -187,6 +186,10 @@ class Boom(Exception):
     pass
 
 
+class Rejected(BaseException):
+    """A wrapper constructor raised on its operand (outside the property); the program is not evaluated further."""
+
+
 def parts(obj):
     """Direct constituents of a wrapper object, from its public structure."""
     from pennylane.measurements import MeasurementProcess
@@ -206,19 +209,34 @@ def parts(obj):
     return out
 
 
-def _lock_free(lock):
-    res = []
+_PROBE = {}
 
-    def probe():
-        got = lock.acquire(blocking=False)
-        if got:
-            lock.release()
-        res.append(got)
 
-    t = threading.Thread(target=probe)
-    t.start()
-    t.join()
-    return res[0]
+def _locks_free(locks):
+    """Non-blocking acquire of every lock from ANOTHER thread (RLocks are re-entrant for the owner, so the probing
+    thread must differ from the one that ran the program).  One persistent helper thread per process."""
+    import os
+    import queue
+
+    st = _PROBE.get(os.getpid())
+    if st is None:
+        req, rep = queue.SimpleQueue(), queue.SimpleQueue()
+
+        def serve():
+            while True:
+                ls = req.get()
+                out = []
+                for l in ls:
+                    got = l.acquire(blocking=False)
+                    if got:
+                        l.release()
+                    out.append(got)
+                rep.put(out)
+
+        threading.Thread(target=serve, daemon=True).start()
+        st = _PROBE[os.getpid()] = (req, rep)
+    st[0].put(list(locks))
+    return st[1].get()
 
 
 def _force_clean():
@@ -321,6 +339,15 @@ class Interp:
             Ref.put(target, r, parts(r))
             return None
         # wrappers
+        try:
+            return self._wrap(a)
+        except (Mismatch, Rejected):
+            raise
+        except Exception as e:  # the constructor itself failed (not a queuing matter): documented/undocumented rejection
+            raise Rejected(f"constructor-raised:{a}({self.tags.get(id(self.opvars[-1]), '?')}):{type(e).__name__}") from e
+
+    def _wrap(self, a):
+        qp = self.qp
         v1 = self.opvars[-1]
         v2 = self.opvars[-2] if len(self.opvars) > 1 else None
         if a == "adj":
@@ -367,7 +394,25 @@ class Interp:
         else:
             raise AssertionError(a)
         consumed = [u for u in used if u is not r] + [p for p in parts(r) if p is not r]
-        return self.new(r, "op", a, consumed)
+        self.new(r, "op", a, consumed)
+        # Undecided by the property: a DEEPER constituent of the result that is still recorded on its own in the active
+        # list (possible only if it was wrapped in another context / under stop_recording before).  Lazy wrappers leave
+        # it, eager ones that rebuild their operand tree drop it; the model adopts whichever happened for that token only.
+        top = self.ref.top()
+        if top is not None:
+            direct = {id(c) for c in consumed} | {id(r)}
+            seen, todo = set(), list(parts(r))
+            while todo:
+                d = todo.pop()
+                if id(d) in seen:
+                    continue
+                seen.add(id(d))
+                todo.extend(parts(d))
+                if id(d) not in direct and any(t is d for t in top):
+                    self.trace.append("deep-constituent-undecided")
+                    if not any(o is d for o in self.open[-1].queue):
+                        top[:] = [t for t in top if t is not d]
+        return None
 
     # ---- blocks
     def block(self, body):
@@ -491,14 +536,19 @@ def check(spec):
         it.compare("end")
     except Mismatch as m:
         result = m.result
+    except Rejected as r:
+        _force_clean()
+        return skip(str(r))
     # ---- global state after the program (also after a mismatch: report the first problem only)
     if result is None:
         if QueuingManager.recording() or QueuingManager.active_context() is not None:
             result = bad("stack-not-restored", repr(QueuingManager.active_context()), None)
-        elif not _lock_free(AnnotatedQueue._lock):  # pylint: disable=protected-access
-            result = bad("lock-held:AnnotatedQueue", "held", "free")
-        elif not _lock_free(QuantumTape._lock):  # pylint: disable=protected-access
-            result = bad("lock-held:QuantumTape", "held", "free")
+        else:
+            free = _locks_free([AnnotatedQueue._lock, QuantumTape._lock])  # pylint: disable=protected-access
+            if not free[0]:
+                result = bad("lock-held:AnnotatedQueue", "held", "free")
+            elif not free[1]:
+                result = bad("lock-held:QuantumTape", "held", "free")
     if result is None:
         # process_queue / from_queue on every plain queue
         for label, real, lst in it.ctxs:
@@ -535,19 +585,18 @@ def _specs(atoms, blocks, sizes, depth, root="AQ"):
 
 
 def run(ctx):
-    full_max = 3
-    core_max = 4 if ctx.quick else 5
+    import pennylane  # noqa: F401  pylint: disable=unused-import  (imported before the fork so workers inherit it)
+
     depth = 3
-    ctx.enumerate(_specs(ATOMS_FULL, BLOCKS_FULL, range(0, full_max + 1), depth), axis="full-grammar", chunk=200)
-    # core grammar at the deeper bound (sizes already covered by the full grammar are not repeated)
-    ctx.enumerate(_specs(ATOMS_CORE, BLOCKS_CORE, range(full_max + 1, core_max + 1), depth), axis="core-grammar", chunk=400)
-    ctx.enumerate(_specs(ATOMS_FULL, BLOCKS_FULL, range(0, 3), 2, root="QT"), axis="root-tape", chunk=200)
-    bound = {"full_grammar_max_statements": full_max, "core_grammar_max_statements": core_max, "max_nesting": depth}
+    ctx.enumerate(_specs(ATOMS_FULL, BLOCKS_FULL, range(0, 5), depth), axis="full-grammar", chunk=400)
+    ctx.enumerate(_specs(ATOMS_FULL, BLOCKS_FULL, range(0, 3 if ctx.quick else 4), 2, root="QT"), axis="root-tape", chunk=200)
+    bound = {"full_grammar_max_statements": 4, "root_tape_max_statements": 2 if ctx.quick else 3, "max_nesting": depth}
     if not ctx.quick:
-        ctx.enumerate(_specs(ATOMS_FULL, BLOCKS_FULL, [4], depth), axis="full-grammar-4", chunk=400)
-        ctx.enumerate(_specs(CREATE + ATOMS_EXTRA + ["ap1", "apO", "pr", "raise"], ["AQ", "QT", "stop"], range(1, 4), 2), axis="extra-forms", chunk=200)
-        bound["full_grammar_max_statements"] = 4
+        ctx.enumerate(_specs(ATOMS_MID, BLOCKS_FULL, [5], depth), axis="mid-grammar-5", chunk=500)
+        ctx.enumerate(_specs(CREATE + ATOMS_EXTRA + ["ap1", "apO", "pr", "raise"], ["AQ", "QT", "stop"], range(1, 4), 2),
+                      axis="extra-forms", chunk=200)
+        bound["mid_grammar_max_statements"] = 5
         bound["extra_forms_max_statements"] = 3
-    ctx.coverage["alphabet"] = {"atoms_full": ATOMS_FULL, "blocks_full": BLOCKS_FULL, "atoms_core": ATOMS_CORE,
-                                "blocks_core": BLOCKS_CORE, "atoms_extra_thorough": ATOMS_EXTRA, "roots": ["AQ", "QT"]}
+    ctx.coverage["alphabet"] = {"atoms_full": ATOMS_FULL, "blocks_full": BLOCKS_FULL, "atoms_mid_thorough": ATOMS_MID,
+                                "atoms_extra_thorough": ATOMS_EXTRA, "roots": ["AQ", "QT"]}
     ctx.coverage["bound"] = bound
